@@ -5,14 +5,83 @@
 //! driver allocate nodes, hold weak (`Gc`) and strong (`GcView`) handles,
 //! link/unlink nodes and run collections. The collector itself is untouched.
 
-use std::cell::RefCell;
+use std::cell::{OnceCell, RefCell};
 use std::rc::Rc;
 
 use crate::gc::{Gc, GcContext, GcTrace, GcTraceCtx, GcView};
 
+/// The outgoing edges of a node, kept in one of several physical
+/// representations so that every container `GcTrace` implementation of the
+/// collector (`Vec<T>`, `Box<[T]>`/`[T]`, `Option<T>`, `OnceCell<T>`) is
+/// exercised by the scripted heap. The logical edge list is the same in all
+/// of them.
+enum Edges {
+    Vec(Vec<Gc<Node>>),
+    Boxed(Box<[Gc<Node>]>),
+    OptThenVec(Option<Gc<Node>>, Vec<Gc<Node>>),
+    OnceThenBoxed(OnceCell<Gc<Node>>, Box<[Gc<Node>]>),
+}
+
+impl Edges {
+    fn from_vec(repr: u8, mut v: Vec<Gc<Node>>) -> Self {
+        match repr % 4 {
+            0 => Self::Vec(v),
+            1 => Self::Boxed(v.into_boxed_slice()),
+            2 => {
+                if v.is_empty() {
+                    Self::OptThenVec(None, v)
+                } else {
+                    let first = v.remove(0);
+                    Self::OptThenVec(Some(first), v)
+                }
+            }
+            _ => {
+                let cell = OnceCell::new();
+                if !v.is_empty() {
+                    let first = v.remove(0);
+                    let _ = cell.set(first);
+                }
+                Self::OnceThenBoxed(cell, v.into_boxed_slice())
+            }
+        }
+    }
+
+    fn to_vec(&self) -> Vec<Gc<Node>> {
+        match self {
+            Self::Vec(v) => v.clone(),
+            Self::Boxed(b) => b.to_vec(),
+            Self::OptThenVec(first, rest) => first.iter().chain(rest.iter()).cloned().collect(),
+            Self::OnceThenBoxed(first, rest) => {
+                first.get().into_iter().chain(rest.iter()).cloned().collect()
+            }
+        }
+    }
+}
+
+impl GcTrace for Edges {
+    fn trace<'a>(&self, ctx: &mut impl GcTraceCtx<'a>)
+    where
+        Self: 'a,
+    {
+        match self {
+            Self::Vec(v) => v.trace(ctx),
+            Self::Boxed(b) => b.trace(ctx),
+            Self::OptThenVec(first, rest) => {
+                first.trace(ctx);
+                rest.trace(ctx);
+            }
+            Self::OnceThenBoxed(first, rest) => {
+                first.trace(ctx);
+                rest.trace(ctx);
+            }
+        }
+    }
+}
+
 struct Node {
     id: u32,
-    edges: RefCell<Vec<Gc<Node>>>,
+    repr: u8,
+    edges: RefCell<Edges>,
     freed_log: Rc<RefCell<Vec<u32>>>,
 }
 
@@ -62,10 +131,11 @@ impl Heap {
         }
     }
 
-    fn new_node(&self, id: u32) -> Node {
+    fn new_node(&self, id: u32, repr: u8) -> Node {
         Node {
             id,
-            edges: RefCell::new(Vec::new()),
+            repr,
+            edges: RefCell::new(Edges::from_vec(repr, Vec::new())),
             freed_log: self.freed_log.clone(),
         }
     }
@@ -90,13 +160,24 @@ impl Heap {
 
     /// Allocates a node, the driver gets a weak (`Gc`) handle.
     pub fn alloc(&mut self, id: u32) -> HandleId {
-        let gc = self.ctx.alloc(self.new_node(id));
+        self.alloc_repr(id, 0)
+    }
+
+    /// Like `alloc`, the node keeps its edges in representation `repr % 4`
+    /// (`Vec`, boxed slice, `Option` + `Vec`, `OnceCell` + boxed slice).
+    pub fn alloc_repr(&mut self, id: u32, repr: u8) -> HandleId {
+        let gc = self.ctx.alloc(self.new_node(id, repr));
         self.push_handle(Handle::Weak(gc))
     }
 
     /// Allocates a node, the driver gets a strong (`GcView`) handle.
     pub fn alloc_view(&mut self, id: u32) -> HandleId {
-        let view = self.ctx.alloc_view(self.new_node(id));
+        self.alloc_view_repr(id, 0)
+    }
+
+    /// Like `alloc_view`, with the edge representation of `alloc_repr`.
+    pub fn alloc_view_repr(&mut self, id: u32, repr: u8) -> HandleId {
+        let view = self.ctx.alloc_view(self.new_node(id, repr));
         self.push_handle(Handle::Strong(view))
     }
 
@@ -128,12 +209,20 @@ impl Heap {
     /// Adds an edge from the node of `from` to the node of `to`.
     pub fn add_edge(&mut self, from: HandleId, to: HandleId) {
         let to = Gc::from(&self.view(to));
-        self.view(from).edges.borrow_mut().push(to);
+        let from = self.view(from);
+        let mut edges = from.edges.borrow_mut();
+        let mut list = edges.to_vec();
+        list.push(to);
+        *edges = Edges::from_vec(from.repr, list);
     }
 
     /// Removes the `index`-th edge of the node of `from`.
     pub fn del_edge(&mut self, from: HandleId, index: usize) {
-        let removed = self.view(from).edges.borrow_mut().remove(index);
+        let from = self.view(from);
+        let mut edges = from.edges.borrow_mut();
+        let mut list = edges.to_vec();
+        let removed = list.remove(index);
+        *edges = Edges::from_vec(from.repr, list);
         drop(removed);
     }
 
@@ -154,7 +243,7 @@ impl Heap {
     /// Identifiers of the nodes the node of `h` points to (in edge order).
     pub fn edge_ids(&self, h: HandleId) -> Vec<u32> {
         let view = self.view(h);
-        let edges = view.edges.borrow();
+        let edges = view.edges.borrow().to_vec();
         edges.iter().map(|edge| edge.view().id).collect()
     }
 
